@@ -41,7 +41,7 @@ New(s, prof, seed) ==
   /\ Rec([op |-> "new", s |-> s, fam |-> Fam, prof |-> prof, seed |-> seed], [op |-> "new", s |-> s]) /\ UNCHANGED store
 
 Fit(s, b, ign) ==
-  /\ Allowed("fit") /\ model[s].st = "new" /\ Cat[b].fam = Fam
+  /\ Allowed("fit") /\ model[s].st \in {"new", "fitted"} /\ Cat[b].fam = Fam     \* a fitted object may be fitted again
   /\ LET m == model[s]  d == Cat[b] IN
      \E out \in FitOutcomes(m, d, ign) :
        /\ model' = IF out = "ok" THEN [model EXCEPT ![s] = Fitted(m, d, Gate(b))] ELSE model
